@@ -107,6 +107,9 @@ class FormulaEvaluator(Generic[QuantityT]):
         )
 
         if pending or any(res.result() is None for res in iter(ready_metrics)):
+            # The samples the other streams delivered for this round are dropped with
+            # it, so the streams have to be aligned again in the next round.
+            self._first_run = True
             raise RuntimeError(
                 f"Some resampled metrics didn't arrive, for formula: {self._name}"
             )
